@@ -250,7 +250,8 @@ func headerValue(name string, line int, c *Case) string {
 		return "for=10.1.1.1"
 	case "for":
 		if line == 1 {
-			return x1Addr(c) + ", 10.2.0.2"
+			// the list is spelled with a comma and optional blanks, whatever the sender likes
+			return x1Addr(c) + []string{", ", ",", " ,  ", ",\t"}[(c.V/3)%4] + "10.2.0.2"
 		}
 
 		return "10.2.1.1"
